@@ -56,6 +56,7 @@ class RebuildProp(Prop):
     def nontrivial(self, case):
         t = case["tree"]
         return (case["version"], case["P"], t["name"], tuple(f["size"] for f in t["files"]),
+                str([[f["size"] for f in t2["files"]] for t2 in case.get("more_trees", [])]),
                 tuple(tuple(c["cls"] for c in f.get("cands", [])) for f in t["files"]),
                 tuple(f.get("dest_pre") for f in t["files"]), case.get("repeat"), case.get("meta_name"),
                 tuple(tuple(f.get("meta_path", [])) for f in t["files"]))
@@ -110,6 +111,21 @@ class C13(RebuildProp):
                     rng.shuffle(c)
                 return c
             out.append(self.scen(rng, P, v, pick(rng, P), cands, route="cli" if k % 7 == 0 else "lib"))
+        # batches of two metafiles in one metafile directory; both torrents contain files with the
+        # same names ("a", "b"), so each one's copies are same-named decoys for the other
+        for k in range(60 if tier == "thorough" else 18):
+            v = (1, 2, 3)[k % 3]
+            P = (B, 2 * B)[k % 2]
+            A = [a for a in alphabet(P) if 0 < a <= 3 * P + 1]
+            s1 = (rng.choice(A), rng.choice(A))
+            s2 = (s1[0], rng.choice(A)) if k % 2 else (rng.choice(A), s1[1])      # provoke equal sizes
+            c = self.scen(rng, P, v, ("D2", s1), lambda fi, f: [self.cand(rng, "intact")])
+            t2 = mk_tree("D2", s2, name="tBatch")
+            for f in t2["files"]:
+                f["cands"] = [self.cand(rng, "intact")]
+                f["dest_pre"] = "absent"
+            c["more_trees"] = [t2]
+            out.append(c)
         # systematic: files ending exactly on a boundary, empty files in every position
         for v in (1, 2, 3):
             for P in (B, 2 * B):
@@ -180,7 +196,9 @@ class C14(RebuildProp):
         return "%s/v%s" % (clause, case["version"] if case else "?")
 
 
-HOSTILE = ["..", ".", "@SBX@/abs", "a/../../b", "../" * 6 + "x", "@SBX@/abs/deep"]
+# the destination directory of every scenario is <sandbox>/dest
+HOSTILE = ["..", ".", "@SBX@/abs", "a/../../b", "../" * 6 + "x", "@SBX@/abs/deep",
+           "../dest_old", "../dest.bak/pkg", "../ghost/../dest/pkg", "pkg/../../dest-copy", "../../dest2"]
 
 
 class C19(RebuildProp):
@@ -221,7 +239,8 @@ class C19(RebuildProp):
                 out.append({"version": v, "P": B, "tree": t, "meta_src": "ref", "meta_name": h, "hostile": True,
                             "nsearch": 1, "unrelated": 1, "clauses": list(self.clauses)})
             # single-file torrents with hostile names that still have a usable last component
-            for nm in ("../escaped.bin", "@SBX@/abs/abs.bin", "x/../../up.bin", "./plain.bin"):
+            for nm in ("../escaped.bin", "@SBX@/abs/abs.bin", "x/../../up.bin", "./plain.bin", "../dest2.bin",
+                       "../ghost/../dest/in.bin"):
                 t = mk_tree("S1", (2 * B + 1,))
                 t["files"][0]["cands"] = [{"cls": "intact", "search": 0, "depth": 0}]
                 out.append({"version": v, "P": B, "tree": t, "meta_src": "ref", "meta_name": nm, "hostile": True,
